@@ -380,7 +380,7 @@ func runHistory(t *testing.T, inst InstD, reqs []ReqD) (obs []ExecObs, start int
 							bad = 0
 						}
 					}
-					log.addT("FnEnd", total, exec.Attempts(), exec.Retries(), exec.Hedges(), exec.Executions()+1, gOutcome(r, e), bad, log.abs(exec.StartTime()), log.abs(exec.AttemptStartTime()))
+					log.addT("FnEnd", total, attemptsSeen(exec), exec.Retries(), exec.Hedges(), exec.Executions()+1, gOutcome(r, e), bad, log.abs(exec.StartTime()), log.abs(exec.AttemptStartTime()))
 				} else {
 					log.add("FnEnd", total, 0, 0, 0, 0, gOutcome(r, e), 0)
 				}
